@@ -44,6 +44,12 @@ B_Event == { <<>>, << <<"bc", 1>> >>, << <<"eev", 1, 1>> >>, << <<"anyev", 1>> >
              << <<"bc", 1>>, <<"eev", 1, 1>> >> }
 B_Small == { <<>>, << <<"bc", 1>> >>, << <<"eev", 1, 1>> >>, << <<"bc", 1>>, <<"anyev", 1>> >> }
 B_One == { << <<"bc", 1>> >> }
+B_Comp1 == { << <<"ins", 1>> >>, << <<"mut", 1>> >>, << <<"rem", 1>> >> }
+B_EvTab == { << <<"eev", 1, 1>>, <<"bc", 1>> >>, << <<"bc", 1>>, <<"bc", 1>> >>, << <<"bc", 1>> >>, << <<"anyev", 1>> >> }
+B_Mixed == { << <<"emut", 1, 1>>, <<"res", 1>> >>, << <<"desp", 1>>, <<"bc", 1>> >>, << <<"erem", 1, 1>>, <<"rem", 1>> >>, << <<"res", 1>>, <<"res", 1>> >> }
+Init_Ins == << <<"ins", 1, 1, 1>> >>
+Init_Burst == << <<"ins", 1, 1, 1>>, <<"ins", 2, 1, 1>>,
+                 <<"reg", "persistent", 1, << <<"bc", 1>>, <<"eev", 1, 1>>, <<"mut", 1>>, <<"ins", 1>>, <<"res", 1>> >>, 0>> >>
 B_Comp == { <<>>, << <<"mut", 1>> >>, << <<"rem", 1>> >>, << <<"erem", 1, 1>> >>, << <<"desp", 1>> >>,
             << <<"ins", 1>>, <<"emut", 1, 1>> >>, << <<"desp", 1>>, <<"desp", 2>> >> }
 B_Types == { << <<"bc", 1>> >>, << <<"bc", 2>> >>, << <<"eev", 1, 1>> >>, << <<"eev", 2, 1>> >>, << <<"eev", 1, 2>> >>,
